@@ -10,7 +10,7 @@ no copy-on-write):
   * delete     output value at k = none for listed keys, else the input value; deleted tags leave the dimensions;
   * shift      time + d;
   * sample     count form: a point is kept iff the number of EARLIER points of its group is a multiple of N;
-               duration form: iff its time is a multiple of the duration;
+               duration form: iff its time is a multiple of the duration counted from Go's zero time (year 1);
   * derivative the previous point is the latest earlier point of the group whose field is numeric (a point is stored
                even when nothing is emitted: zero elapsed, negative difference under nonNegative); value =
                (cur - prev) / (elapsed / unit);
@@ -111,8 +111,13 @@ def specShift (d : Int) (p : Point) : Point := { p with time := p.time + d }
 
 /-! ## sample -/
 
+/-- "t is a multiple of d", counted — as Go's `Time.Truncate` counts — from Go's zero time (January 1, year 1, 00:00 UTC,
+62135596800 s before the Unix epoch), not from the Unix epoch: the two differ for every d that does not divide that offset
+(7s, 11s, 13s, 36h, 1w …). A non-positive d truncates nothing. -/
+def onGoBoundary (t d : Int) : Bool := decide (d ≤ 0) || (t + Kap.C16.zeroOff) % d == 0
+
 def specSample (n dur : Int) : List Point → List Point :=
-  perGroup (fun h p => if (if dur ≠ 0 then p.time % dur == 0 else (h.length : Int) % n == 0) then [p] else []) []
+  perGroup (fun h p => if (if dur ≠ 0 then onGoBoundary p.time dur else (h.length : Int) % n == 0) then [p] else []) []
 
 /-! ## derivative -/
 
